@@ -20,9 +20,6 @@ Definition vok (hl : Z) (v : val) : Prop :=
 
 Definition vsrc (v : val) : Prop := match v with P _ => True | R x => 0 <= x < n0 end.
 
-Definition is_annk (k : kind) : bool :=
-  match k with KAnnotable | KTaxon | KNamespace => true | _ => false end.
-
 Definition ref_ok (h : heap) (v : val) (kd : kind) : Prop :=
   forall o, v = R o -> n0 <= o /\ kind_at h o = Some kd.
 
